@@ -98,6 +98,15 @@ BREAKING = {
         sub("src/stream_dispatch.rs", "        // This will close the writer.\n        self.user_tx.mark_vsock_closed();\n\n        if error.is_some()", "        if error.is_some()")),
     "afterpk-truncates-sacked-bytes-too": (["C01"], ["afterpk.ring_loses"],
         sub("src/stream_dispatch.rs", ".truncate_front(result.on_ack_result.acked_bytes)?;", ".truncate_front(result.on_ack_result.acked_bytes + result.on_ack_result.newly_sacked_byte_count)?;")),
+    "read-half-clean-eof-on-dead-dispatcher": (["C03"], ["rxread.end_of_stream"],
+        sub("src/stream_rx.rs", "        if self.is_eof {\n            return Poll::Ready(Ok(0));\n        }\n\n        if dispatcher_dead", "        if self.is_eof || dispatcher_dead {\n            return Poll::Ready(Ok(0));\n        }\n\n        if dispatcher_dead")),
+    "read-half-duplicates-a-byte": (["C03"], ["rxread."],
+        sub("src/stream_rx.rs", "                current.offset += len;\n", "                current.offset += len;\n                if len > 3 { current.offset -= 1; }\n")),
+    "pim-previously-seen-after-table": (["C17"], ["pim.in_sequence_fin_is_consumed"],
+        lambda root: [sub("src/stream_dispatch.rs", "        let previously_seen_remote_fin = self.state.is_remote_fin_or_later();\n\n        match (self.state, hdr.get_type()) {", "        match (self.state, hdr.get_type()) {")(root),
+                      sub("src/stream_dispatch.rs", "        let result = ProcessIncomingMessageResult {\n            on_ack_result: self\n                .user_tx_segments", "        let previously_seen_remote_fin = self.state.is_remote_fin_or_later();\n\n        let result = ProcessIncomingMessageResult {\n            on_ack_result: self\n                .user_tx_segments")(root)]),
+    "rto-step-no-backoff": (["C06"], ["rto.retransmission_backs_off"],
+        sub("src/stream_dispatch.rs", "                            .on_retransmission_timeout(self.this_poll.now);\n                        self.rtte.on_rto_timeout();\n                        self.recovery.on_rto_timeout(self.last_sent_seq_nr);\n                    }\n\n                    // Restart the timer.", "                            .on_retransmission_timeout(self.this_poll.now);\n                        self.recovery.on_rto_timeout(self.last_sent_seq_nr);\n                    }\n\n                    // Restart the timer.")),
 }
 
 HARMLESS = {
@@ -196,6 +205,42 @@ HARMLESS = {
 
                 self.timers.remote_inactivity_timer.turn_off("TX is empty");""", """                self.timers.remote_inactivity_timer.turn_off("TX is empty");
                 self.timers.retransmit.turn_off("rfc6298 5.2");""")),
+    "read-half-reorder-independent-updates": (["C03"],
+        sub("src/stream_rx.rs", "                written += len;\n                current.offset += len;\n", "                current.offset += len;\n                written += len;\n")),
+    "read-half-match-arm-order": (["C03"],
+        sub("src/stream_rx.rs", """                    UserRxMessage::Eof => {
+                        drop(g);
+                        self.is_eof = true;
+                        break;
+                    }
+                    UserRxMessage::Payload(payload) => {
+                        drop(g);
+                        self.current = Some(BeingRead { payload, offset: 0 })
+                    }""", """                    UserRxMessage::Payload(payload) => {
+                        drop(g);
+                        self.current = Some(BeingRead { payload, offset: 0 })
+                    }
+                    UserRxMessage::Eof => {
+                        drop(g);
+                        self.is_eof = true;
+                        break;
+                    }""")),
+    "pim-extra-trace-before-table": (["C17"],
+        sub("src/stream_dispatch.rs", "        let previously_seen_remote_fin = self.state.is_remote_fin_or_later();\n", "        let previously_seen_remote_fin = self.state.is_remote_fin_or_later();\n        trace!(previously_seen_remote_fin, \"before the table\");\n")),
+    "rto-step-reorder-notifications": (["C06"],
+        sub("src/stream_dispatch.rs", """                        self.congestion_controller
+                            .on_retransmission_timeout(self.this_poll.now);
+                        self.rtte.on_rto_timeout();
+                        self.recovery.on_rto_timeout(self.last_sent_seq_nr);
+                    }
+
+                    // Restart the timer.""", """                        self.rtte.on_rto_timeout();
+                        self.congestion_controller
+                            .on_retransmission_timeout(self.this_poll.now);
+                        self.recovery.on_rto_timeout(self.last_sent_seq_nr);
+                    }
+
+                    // Restart the timer.""")),
 }
 
 
